@@ -84,6 +84,7 @@ func zzC06_retain() {
 		vAssert(now[i] == snapData[i], "retained typed value unchanged by later reads")
 	}
 	w2, e2 := m1.Serialize()
+	vObserveBytes("retained", w2)
 	vAssert(e2 == nil && len(w2) == len(snapWire), "retained message serialises as before")
 	for i := range snapWire {
 		vAssert(w2[i] == snapWire[i], "retained message serialises to the same bytes")
